@@ -45,7 +45,8 @@ def concretise(case, rot):
     dly = DELAYS[rot % len(DELAYS)]
     hmap = {"a": a, "b": b, "bad": bad, "na": "n/a", "off": "(Def/Aaa, Offset)", "dly": dly,
             "on": ["(Def/Aaa, Onset)", "(Def/aaa, Onset, (Ellipse))"][rot % 2],
-            "doff": ["(Delay/15 s, Def/Aaa, Offset)", "(Delay/15000 ms, Offset, Def/AAA)"][rot % 2]}
+            # (15 s also as 0.000015 megaseconds: prefix SYMBOLS are case-sensitive, `Ms` is not `ms`)
+            "doff": ["(Delay/15 s, Def/Aaa, Offset)", "(Delay/15000 ms, Offset, Def/AAA)", "(Delay/0.000015 Ms, Def/Aaa, Offset)"][rot % 3]}
     sidecar = {"cat": {"HED": {"ka": a, "kb": b, "kbad": bad}}}
     cmap = {"a": "ka", "b": "kb", "bad": "kbad", "na": "n/a", "unk": "kzz"}
     rows = case["rows"]
@@ -169,6 +170,30 @@ def execute(args):
                     os.remove(xp)
                 except OSError:
                     pass
+    # empty rows: before every row an all-n/a row with the SAME onset is inserted (the two then form one time point); nothing but
+    # the labels may change - every error is reported for the same original row (or its empty companion, cf. O8)
+    if case["hasOnset"] and case["numeric"] and n >= 1:
+        t4 = {k: [] for k in table}
+        for k in range(n):
+            for col in table:
+                t4[col].append(table[col][k] if col == "onset" else "n/a")
+            for col in table:
+                t4[col].append(table[col][k])
+        try:
+            g4 = validate_table(t4, sidecar)
+            e4 = sorted((c_, (r - 2) // 2 + 2) for c_, s_, r, col in g4 if s_ == 1 and r is not None)
+            e0 = sorted((c_, r) for c_, s_, r, col in got if s_ == 1 and r is not None)
+            dirty4 = {r for c_, r, col in {(c2 if c2 != "TAG_INVALID" else code, r2, col2) for c2, r2, col2 in map(tuple, case["errors"])} if col}
+            if dirty4:      # whether the markers of a row with a failing cell take effect is not fixed by the statement:
+                e4 = [x for x in e4 if x[0] != "TEMPORAL_TAG_ERROR"]      # temporal issues are then left out of this comparison
+                e0 = [x for x in e0 if x[0] != "TEMPORAL_TAG_ERROR"]
+            clean_same = [x for x in e4 if x[1] not in dirty4] == [x for x in e0 if x[1] not in dirty4]
+            dirty_kept = all(e4.count(x) >= e0.count(x) for x in e0 if x[1] in dirty4)     # rows with a failing cell: "at least"
+            if not (clean_same and dirty_kept):
+                problems.append(("empty-rows:errors-differ", "table %s: with an all-n/a row of the same onset inserted before every row the errors "
+                                 "(code, original row) are %s, without them %s" % (table, e4, e0)))
+        except Exception as ex:  # noqa
+            problems.append(("raises:%s" % type(ex).__name__, "validate raised %s: %s for table %s" % (type(ex).__name__, ex, t4)))
     # a value column referenced in curly braces from the categorical entries: its one failing cell must be reported at ITS
     # file row, in whatever order the rows (onsets) come
     if n >= 2 and code != "VALUE_INVALID" and any(r["c"] in ("a", "b") for r in case["rows"]):
